@@ -29,7 +29,31 @@ pub fn gen(rng: &mut Rng, _index: u64) -> String {
         let p = query_point(rng, k, &g);
         format!("C02.pos {} {}", proto::geom(&g), proto::coord(p))
     } else {
-        let a = gen_valid(rng, k);
+        let mut a = gen_valid(rng, k);
+        // junctions: several line strings leaving one point (2, 3 or 4 members share an end point)
+        if rng.chance(1, 10) {
+            let hub = (rng.range(1, k - 1), rng.range(1, k - 1));
+            let n = rng.range(2, 4);
+            let dirs = [(1i64, 0i64), (0, 1), (-1, 0), (0, -1), (1, 1), (-1, 1), (1, -1), (-1, -1)];
+            let mut used: Vec<(i64, i64)> = vec![];
+            let mut ls = vec![];
+            for _ in 0..n {
+                let d = *rng.pick(&dirs);
+                if used.contains(&d) { continue; }
+                used.push(d);
+                let len = rng.range(1, 2);
+                let mut pts = vec![hub, (hub.0 + d.0 * len, hub.1 + d.1 * len)];
+                if rng.chance(1, 2) { pts.reverse(); }
+                ls.push(LineString(path_coords(&pts)));
+            }
+            a = Geometry::MultiLineString(MultiLineString(ls));
+            if rng.chance(2, 3) {
+                let b = Geometry::Point(Point(c(hub.0, hub.1)));
+                let op = if rng.chance(1, 2) { "C02.pred" } else { "C02.cpred" };
+                return if rng.chance(1, 2) { format!("{} {} {}", op, proto::geom(&a), proto::geom(&b)) }
+                       else { format!("{} {} {}", op, proto::geom(&b), proto::geom(&a)) };
+            }
+        }
         // containment needs nested operands to be frequent: often derive B from A's own vertices
         let b = if rng.chance(1, 4) {
             use geo::algorithm::coords_iter::CoordsIter;
